@@ -20,6 +20,7 @@ import (
 	"sort"
 	"strconv"
 	"strings"
+	"sync"
 	"time"
 
 	sqlpkg "seata.apache.org/seata-go/pkg/datasource/sql"
@@ -45,6 +46,9 @@ type scenario struct {
 	Ca     int    `json:"ca"`     // 1: explicit transaction: Commit is called although the business statement failed
 	Reuse  int    `json:"reuse"`  // 1: the pooled connection served a complete XA transaction before; 2: another global transaction uses the pool between phase one and phase two
 	Xid    string `json:"xid"`    // xid flavour: "" (plain) | dash | long | quote   (data dimension, chosen by the driver)
+	// Early: the coordinator's BranchRollback arrives while phase one is still running, when this statement of the
+	// branch is in flight at the database: start | dml | end | prepare ("" = phase two after the call returned)
+	Early string `json:"early"`
 }
 
 const ddl = "CREATE TABLE acct (id int NOT NULL, v int NOT NULL, PRIMARY KEY (id))"
@@ -85,8 +89,19 @@ func main() {
 	// the enumerated scenarios again with an xid that contains '-' (thorough only).
 	const nExtra, nExtraQuick = 640, 32
 	nEnum := len(scs)
+	earlyLeg := false // the leg whose scenarios carry an `early` marker (XABranch_GenEarly.cfg)
+	for _, sc := range scs {
+		earlyLeg = earlyLeg || sc.Early != ""
+	}
 	r := o.Rand(7)
 	for j := 0; j < nExtra; j++ {
+		if earlyLeg {
+			// the data dimension of the early leg: xid flavours x arrival point x delivery afterwards
+			scs = append(scs, scenario{Kind: []string{"ins", "upd", "del", "sel"}[r.Intn(4)], Mode: []string{"auto", "explicit"}[r.Intn(2)], Reg: "ok",
+				P2: "rollback", How: []string{"once", "once", "dup", "restart"}[r.Intn(4)], Ver: []string{"8.0.28", "8.0.30"}[r.Intn(2)],
+				Xid: []string{"dash", "dash", "long", "quote", "bigbid"}[r.Intn(5)], Early: []string{"start", "dml", "end", "prepare"}[r.Intn(4)]})
+			continue
+		}
 		sc := scenario{Kind: []string{"ins", "upd", "del", "sel"}[r.Intn(4)], Mode: []string{"auto", "explicit"}[r.Intn(2)], Reg: "ok",
 			P2: []string{"commit", "rollback"}[r.Intn(2)], How: []string{"once", "once", "dup", "restart"}[r.Intn(4)],
 			Ver: []string{"8.0.28", "8.0.30"}[r.Intn(2)], Xid: []string{"dash", "dash", "long", "quote", "bigbid"}[r.Intn(5)]}
@@ -134,6 +149,9 @@ func main() {
 			continue
 		}
 		cls := fmt.Sprintf("kind=%s,mode=%s,reg=%s,failAt=%d,p2=%s,how=%s,ver=%s,reuse=%d,xid=%s", sc.Kind, sc.Mode, sc.Reg, sc.FailAt, sc.P2, sc.How, sc.Ver, sc.Reuse, sc.Xid)
+		if sc.Early != "" {
+			cls += ",early=" + sc.Early
+		}
 		t := w.Begin(map[string]interface{}{"i": i, "sc": sc}, cls)
 		if run(lab(sc.Ver), t, sc, o.Rand(int64(i)+1000)) {
 			refused++
@@ -330,7 +348,7 @@ func run(lab *atlab.XALab, t *trace.T, sc scenario, r rnd) (refused bool) {
 		preXid, preBid := curXid, curBid
 		registeredPre := false
 		_ = tm.WithGlobalTx(context.Background(), &tm.GtxConfig{Name: "xab-prefail", Timeout: 30 * time.Second}, func(ctx context.Context) error {
-			lab.Srv.AddFault(memsql.Fault{Nth: 2})
+			lab.Srv.AddFault(memsql.Fault{Nth: 2, SkipMeta: true})
 			e, p := call(ctx, lab.DB, scenario{Kind: "upd", Mode: "auto"})
 			lab.Srv.ClearFaults()
 			registeredPre = true
@@ -357,11 +375,15 @@ func run(lab *atlab.XALab, t *trace.T, sc scenario, r rnd) (refused bool) {
 	var panicked interface{}
 	var seqRet int64
 	var st1 [3]interface{}
+	// the early delivery (sc.Early): its request and reply, stamped with the shared sequence like everything else
+	var earlyMu sync.Mutex
+	var earlyEvs []obs
+	earlyFired := false
 	_ = tm.WithGlobalTx(context.Background(), &tm.GtxConfig{Name: "xab", Timeout: 30 * time.Second}, func(ctx context.Context) error {
 		lab.Srv.ClearJournal()
 		lab.Coord.ClearLog()
 		if sc.FailAt > 0 {
-			lab.Srv.AddFault(memsql.Fault{Nth: sc.FailAt})
+			lab.Srv.AddFault(memsql.Fault{Nth: sc.FailAt, SkipMeta: true})
 		}
 		if slowLeg {
 			held := false
@@ -370,6 +392,38 @@ func run(lab *atlab.XALab, t *trace.T, sc scenario, r rnd) (refused bool) {
 					held = true
 					time.Sleep(250 * time.Millisecond)
 				}
+				return nil
+			})
+		}
+		if sc.Early != "" {
+			// The coordinator gives the global transaction up while the application is still inside the call: when
+			// the chosen statement of THIS branch arrives at the database (it is in flight: the gate runs on the
+			// statement's goroutine before the statement executes, without the server's lock) BranchRollback is
+			// delivered through the client's real dispatch and its reply awaited; then the statement goes on.
+			// Whatever the resource manager sends to the database meanwhile passes the gate (earlyFired) and lands
+			// in the journal between the P2Early and the P2 event, before the held statement.
+			lab.Srv.SetGate(func(e *memsql.Entry) error {
+				hit := false
+				switch sc.Early {
+				case "start", "end", "prepare":
+					hit = e.Class == "xa_"+sc.Early && idOK(e.XAID, xid, bid)
+				case "dml":
+					hit = strings.EqualFold(e.Table, "acct") && !strings.HasPrefix(e.Class, "xa_") && e.Class != "meta"
+				}
+				earlyMu.Lock()
+				if !hit || earlyFired {
+					earlyMu.Unlock()
+					return nil
+				}
+				earlyFired = true
+				earlyMu.Unlock()
+				s0 := tc.NextSeq()
+				st, ok := lab.Coord.BranchRollback(lab.Sess, xid, bid, branch.BranchTypeXA, lab.RID, nil, 3*time.Second)
+				s1 := tc.NextSeq()
+				earlyMu.Lock()
+				earlyEvs = append(earlyEvs, obs{s0, "P2Early", []interface{}{"kind", "rollback", "how", "early", "at", sc.Early}},
+					obs{s1, "P2", []interface{}{"kind", "rollback", "status", atlab.StatusName(st, ok), "at", sc.Early}})
+				earlyMu.Unlock()
 				return nil
 			})
 		}
@@ -414,9 +468,12 @@ func run(lab *atlab.XALab, t *trace.T, sc scenario, r rnd) (refused bool) {
 		}
 	}
 	var evs []obs
+	earlyMu.Lock()
+	evs = append(evs, earlyEvs...)
+	earlyMu.Unlock()
 	kind := "rollback"
-	if sc.P2 == "commit" && ret == "nil" {
-		kind = "commit" // the transaction manager commits only what returned nil
+	if sc.P2 == "commit" && ret == "nil" && sc.Early == "" {
+		kind = "commit" // the transaction manager commits only what returned nil (and the coordinator never changes a decision)
 	}
 	if registered && sc.Reuse == 2 && ret == "nil" {
 		// the interloper: phase one of another global transaction on the same pool (most recently released
@@ -455,7 +512,7 @@ func run(lab *atlab.XALab, t *trace.T, sc scenario, r rnd) (refused bool) {
 			deliver("once")
 			deliver("dup")
 		case "retry":
-			lab.Srv.AddFault(memsql.Fault{Nth: 1})
+			lab.Srv.AddFault(memsql.Fault{Nth: 1, SkipMeta: true})
 			deliver("once")
 			lab.Srv.ClearFaults()
 			deliver("retry")
@@ -611,6 +668,9 @@ func run(lab *atlab.XALab, t *trace.T, sc scenario, r rnd) (refused bool) {
 	}
 	if sc.Ca == 1 {
 		sig += ":commit-anyway"
+	}
+	if sc.Early != "" {
+		sig += ":early=" + sc.Early
 	}
 	for _, e := range evs {
 		kv := append([]interface{}{}, e.kv...)
